@@ -18,6 +18,11 @@ Fixpoint bytes_of (s : string) : str :=
   | String a s' => N_of_ascii a :: bytes_of s'
   end.
 
+(* [u] repeated [n] times: long periodic strings of the large-scope cases are
+   written by the harness as [srep n u] instead of a literal list (a lossless
+   abbreviation: the term evaluates to exactly the bytes that were observed) *)
+Definition srep (n : N) (u : str) : str := N.iter n (fun acc => u ++ acc) [].
+
 Definition H_CONTENT_TYPE : str := bytes_of "content-type".
 Definition H_REQUEST_ID : str := bytes_of "x-request-id".   (* http_util.rs HEADER_REQUEST_ID *)
 Definition H_LOCATION : str := bytes_of "location".
